@@ -8,6 +8,12 @@ const (
 	VerifSiteFindConflict
 	VerifSiteFieldsAndFragment
 	VerifSiteBetweenFragments
+	VerifSiteFragmentSpreadsStep
+	VerifSiteRRFPop
+	VerifSiteRRFSpread
+	VerifSiteDetectCycleCall
+	VerifSiteDetectCycleSpread
+	VerifSiteVariableUsagesCompute
 )
 
 func verifCount(site int) {}
